@@ -469,6 +469,9 @@ func funcHashes() map[string]string {
 				key = rel + ":" + r + x.Name.Name
 				_ = printer.Fprint(&buf, token.NewFileSet(), x)
 				funcLocalsOut[key] = localNames(x)
+				if co := caseOrders(x); len(co) > 0 {
+					funcLocalsOut[key+"#cases"] = co
+				}
 			case *ast.GenDecl:
 				if x.Tok == token.IMPORT {
 					continue
